@@ -8,7 +8,7 @@ from ..pm import AnalysisError, unparse
 from ..report import Check
 from ..sym import Resolver, Term, path_of, show, walk
 from ..tables import function_factory
-from . import c16, shunting, wiring
+from . import c08, c16, pushdown, shunting, wiring
 from .common import const_value, iter_base, iter_precedes, loc, loops_over, strip
 
 EXPLANATION = (
@@ -21,7 +21,7 @@ EXPLANATION = (
     "or->disjunction) by path-sensitive abstract interpretation; the weight factor; format_infix's spacing alphabet"
 )
 ASSUMPTIONS = ["decides structure and wiring of antecedent evaluation; the numeric value of a particular antecedent is not decided"]
-FLOORS = {"T1": 2, "G1": 1, "W1": 1, "P9": 7, "P3": 3, "H1": 2, "F1": 1, "F-end": 1, "X1": 2, "X7": 2}
+FLOORS = {"PD": 4, "T1": 2, "G1": 1, "W1": 1, "P9": 7, "P3": 3, "P2": 14, "H1": 2, "F1": 1, "F-end": 1, "X1": 2, "X7": 2}
 
 
 def run(check: Check) -> None:
@@ -41,12 +41,15 @@ def run(check: Check) -> None:
         check.require(ok, "T1", "FunctionFactory/and-or-left-binary", "`and` and `or` are left-associative binary operators"
                       if ok else f"and: assoc {a.associativity} arity {a.arity}; or: assoc {o.associativity} arity {o.arity}", f"{fac.file}:{o.lineno}")
     shunting.g1_pop_rule(check)
+    pushdown.infix_to_postfix(check)
     x7_operand_queue(check)
     w1_operand_order(check)
     c16.antecedent_automaton(check)
     h1_hedge_storage(check)
     wiring.p9_antecedent(check)
     wiring.p3_weight(check)
+    for cls in c08.ACTIVATIONS:  # "the connectives are computed with the rule block's conjunction and disjunction operators"
+        c08.operator_wiring(c08.Activate(check, cls), roles=("conjunction", "disjunction"))
     x1_format_infix(check)
     check.exhaustive_parts += ["pop rule over all orderings", "antecedent automaton x grammar automaton", "dispatch cases of activation_degree"]
 
